@@ -92,12 +92,18 @@ def solve(env, family, state, max_nodes):
         def prune(s, a, ns):
             return a is Action.PICK_N_DROP and type(s.agent.grid_object) is not NoneGridObject
     prio = exit_distance(family) if family == 'dynamic_obstacles' else None
+    errors = []
+
+    def on_error(s, a, e):  # the real step raised: totality is C01's subject; here the transition is simply unexplored
+        errors.append(describe_exc(e))
+
     status, path, stats = search.bfs(env, state, goal_for(family), max_nodes, stochastic=stochastic, actions=acts,
-                                     prune=prune, priority=prio, outcome_limit=256)
+                                     prune=prune, priority=prio, outcome_limit=256, on_error=on_error)
     if status == 'exhausted' and (len(acts) < len(env.action_space.actions) or prune is not None):
         # confirm with the environment's full action set and no pruning before calling it unwinnable
         status, path, stats = search.bfs(env, state, goal_for(family), max_nodes, stochastic=stochastic, priority=prio,
-                                         outcome_limit=256)
+                                         outcome_limit=256, on_error=on_error)
+    stats['raised'] = errors[:3]
     return status, path, stats
 
 
@@ -154,6 +160,8 @@ def instance(ctx, configs, family, params, state, how, max_nodes):
     else:
         ctx.hit('budget.' + family)
         ctx.add('inconclusive_instances')
+        if stats.get('raised'):
+            ctx.inconc(f'{family} {params}: the real step raised during the search ({stats["raised"][0]}); winnability undecided')
 
 
 def seeded_instances(ctx, configs, family, params, seeds, max_nodes, tag):
@@ -248,6 +256,12 @@ def run(ctx):
     for family, params in GRID:
         jobs.append(('grid', family, params, ctx.pick(16, 600)))
     with reach(ctx, [getattr(reset_fs, n) for n in FAMILY_CONFIG]):
+        if ctx.shard == 0:
+            # the witness input of the listed known finding F1 is replayed on every run, so that the finding is always
+            # reported (as KNOWN-FINDING) while it exists, and stops being reported once it is repaired
+            seeded_instances(ctx, configs, 'memory_rooms',
+                             {'shape': [5, 9], 'layout': [1, 2], 'colors': ['RED', 'GREEN', 'BLUE'], 'num_beacons': 2, 'num_exits': 3},
+                             [43011], max_nodes, 'known_finding_witness')
         for j, (tag, family, params, nseeds) in enumerate(jobs):
             seeds = [ctx.seed * 100000 + j * 1000 + s for s in range(nseeds)]
             mine = [s for i, s in enumerate(seeds) if ctx.mine(j + i)]
